@@ -373,6 +373,9 @@ def rule_d(ck, u):
                 sp = p.calls('byte_buffer_space')
                 en = p.calls('varint_encode_%s%d' % (sgn, w))
                 sk = p.calls('sink_put_chunk')
+                if not sp and len(en) == 1 and len(sk) == 1:
+                    ok, detail = None, 'the scratch buffer is not set up by byte_buffer_space (an initialiser or another helper): the rule reads the capacity off that call'
+                    break
                 if len(sp) != 1 or len(en) != 1 or len(sk) != 1:
                     ok, detail = False, 'expected space/encode/put sequence'
                     break
@@ -387,5 +390,8 @@ def rule_d(ck, u):
                 rv = p.ret[2] if p.ret is not None and p.ret[0] == 'cast' else p.ret
                 if rv != sk[0].result:
                     ok, detail = False, 'does not return the sink result'
+            if ok is None:
+                ck.broken('C14.d', name, cast.where(f), detail)
+                continue
             ck.verdict(ok, 'C14.d', name, cast.where(f),
                        'encodes into a %d-octet scratch buffer and puts exactly its used octets' % mx if ok else detail)
